@@ -58,7 +58,10 @@ LineLen(l) == IF Unit THEN 2 ELSE ByteLen(l)
 \* classified client line
 CL(k, id, fail, pad) == [k |-> k, id |-> id, fail |-> fail, pad |-> pad]
 \* a command inside a request as the caller issued it
-Cmd(id, fail, pad) == [id |-> id, fail |-> fail, pad |-> pad]
+Cmd(id, fail, pad) == [id |-> id, fail |-> fail, pad |-> pad, t |-> "req"]
+\* typed commands with distinguishable replies (C13 pairing through the real client): t in {"sticker", "update", "addid", "channels"};
+\* id is the URI argument (it embeds the request id), empty for channels
+CmdT(t, id) == [id |-> id, fail |-> FALSE, pad |-> 0, t |-> t]
 
 \* request ids: traces "cXnYY" / "cXnYYxZ" (bytes); model <<c, n, j>>
 IdC(id) == IF Unit THEN id[1] ELSE id[2] - 48
@@ -72,6 +75,24 @@ ExecReq(c, idx) ==
   \* a failing command may already have printed part of its output: those lines precede the ACK and belong to no frame
   IF c.fail THEN [ok |-> FALSE, ls |-> [j \in 1..c.pad |-> Fld(PAD, Dec(j))] \o <<AckL(2, idx, REQ, BOOM \o c.id)>>]
   ELSE [ok |-> TRUE, ls |-> <<Fld(ECHO, c.id)>> \o [j \in 1..c.pad |-> Fld(PAD, Dec(j))]]
+
+K_STICKER == <<115,116,105,99,107,101,114>>
+K_UPDATING == <<117,112,100,97,116,105,110,103,95,100,98>>
+K_ID == <<73,100>>
+K_CHANNEL == <<99,104,97,110,110,101,108>>
+\* reply of the typed commands (functions of their argument, so that a mispairing is visible)
+ExecT(c) ==
+  CASE c.t = "sticker" -> <<Fld(K_STICKER, <<110, 61>> \o c.id)>>                 \* sticker: n=<uri>
+    [] c.t = "update" -> <<Fld(K_UPDATING, <<55>>)>>
+    [] c.t = "addid" -> <<Fld(K_ID, Dec(Len(c.id)))>>
+    [] OTHER -> <<Fld(K_CHANNEL, <<99,49>>), Fld(K_CHANNEL, <<99,50>>)>>
+Exec(c, idx) == IF c.t = "req" THEN ExecReq(c, idx) ELSE [ok |-> TRUE, ls |-> ExecT(c)]
+\* the typed value the i-th position of a typed list must carry
+TypedItem(c) ==
+  CASE c.t = "sticker" -> <<"sticker", c.id>>
+    [] c.t = "update" -> <<"update", <<55>>>>
+    [] c.t = "addid" -> <<"add", Dec(Len(c.id))>>
+    [] OTHER -> <<"channels", <<<<99,49>>, <<99,50>>>>>>
 
 \* picture model (C17): cfg.pic = [embedded, file (sizes or -1), mime (bytes or <<>>), hasMime, limit, embedded_ack, file_ack]
 Min(a, b) == IF a < b THEN a ELSE b
@@ -92,7 +113,7 @@ ExecPic(pic, embedded, off, idx, dig(_, _, _)) ==
 
 \* ------------------------------------------------------------------ results
 Frame(f, bn, bd) == [f |-> f, bn |-> bn, bd |-> bd]
-Res(t, frames, code, idx, cmd, msg) == [t |-> t, frames |-> frames, code |-> code, idx |-> idx, cmd |-> cmd, msg |-> msg, kind |-> ""]
+Res(t, frames, code, idx, cmd, msg) == [t |-> t, frames |-> frames, code |-> code, idx |-> idx, cmd |-> cmd, msg |-> msg, kind |-> "", items |-> <<>>]
 
 \* what a complete reply means to a caller: frames in order, then the error if any
 RECURSIVE ParseReply(_, _, _, _, _)
@@ -205,7 +226,7 @@ WCliLineD(w, ln, dig(_, _, _)) ==
             THEN Chk(w2, ln.k = "idle", "C05", "first line after authentication is not idle") ELSE w2
       healthy == w.fault = ""
       w4 == Chk(w3, ~healthy \/ w.mode # "idle" \/ ln.k = "noidle", "C05", "command written while the server waits in idle")
-      startsReq == w.mode # "list" /\ ln.k \in {"req", "begin", "pic", "other"}
+      startsReq == w.mode # "list" /\ ln.k \in {"req", "begin", "pic", "other", "sticker", "update", "addid", "channels"}
       w5 == IF startsReq /\ healthy THEN Chk(w4, w.rd = w.wr, "C05", "request written while earlier server output is still unread (more than one exchange outstanding)") ELSE w4
       w6 == IF ln.k = "idle" /\ w.mode # "idle" /\ healthy THEN Chk(w5, w.rd = w.wr, "C05", "idle written while earlier server output is still unread") ELSE w5
       \* --- F-C04-2 precondition: noidle while an idle reply is partly read with >= 1 complete changed line
@@ -221,11 +242,12 @@ WCliLineD(w, ln, dig(_, _, _)) ==
              s == ServerSees([w7 EXCEPT !.listAcc = <<>>, !.mode = "ready"], acc)
              RECURSIVE Run(_, _)
              Run(i, lsacc) == IF i > Len(acc) THEN Append(lsacc, OkL)
-                              ELSE LET x == IF acc[i].id = <<>> THEN [ok |-> FALSE, ls |-> <<AckL(5, i - 1, <<>>, <<>>)>>] ELSE ExecReq(acc[i], i - 1) IN
+                              ELSE LET x == IF acc[i].t = "bad" THEN [ok |-> FALSE, ls |-> <<AckL(5, i - 1, <<>>, <<>>)>>] ELSE Exec(acc[i], i - 1) IN
                                    IF x.ok THEN Run(i + 1, lsacc \o x.ls \o <<ListOkL>>) ELSE lsacc \o x.ls
          IN IF acc = <<>> THEN Emit(s.w, "list", <<OkL>>, 0) ELSE Emit(s.w, "list", Run(1, <<>>), s.ri)
       ELSE IF ln.k = "req" THEN [w7 EXCEPT !.listAcc = Append(@, Cmd(ln.id, ln.fail, ln.pad))]
-      ELSE V([w7 EXCEPT !.listAcc = Append(@, Cmd(<<>>, FALSE, 0))], "C07", "non-request line inside a command list", ""))
+      ELSE IF ln.k \in {"sticker", "update", "addid", "channels"} THEN [w7 EXCEPT !.listAcc = Append(@, CmdT(ln.k, ln.id))]
+      ELSE V([w7 EXCEPT !.listAcc = Append(@, CmdT("bad", <<>>))], "C07", "non-request line inside a command list", ""))
   ELSE
   CASE ln.k = "idle"   -> IF w7.pend # <<>> THEN IdleReply(w7) ELSE [w7 EXCEPT !.mode = "idle"]
     [] ln.k = "noidle" -> IF w7.mode = "idle" THEN Emit([w7 EXCEPT !.mode = "ready"], "noidle", <<OkL>>, 0) ELSE w7
@@ -244,6 +266,9 @@ WCliLineD(w, ln, dig(_, _, _)) ==
          LET s == ServerSees([w7 EXCEPT !.mode = "ready"], <<Cmd(ln.id, ln.fail, ln.pad)>>)
              x == ExecReq(Cmd(ln.id, ln.fail, ln.pad), 0) IN
          Emit(s.w, "cmd", IF x.ok THEN Append(x.ls, OkL) ELSE x.ls, s.ri)
+    [] ln.k \in {"sticker", "update", "addid", "channels"} ->
+         LET s == ServerSees([w7 EXCEPT !.mode = "ready"], <<CmdT(ln.k, ln.id)>>) IN
+         Emit(s.w, "cmd", Append(ExecT(CmdT(ln.k, ln.id)), OkL), s.ri)
     [] ln.k = "pic"    ->
          LET x == ExecPic(w7.pic, ln.fail, ln.pad, 0, dig) IN
          Emit([w7 EXCEPT !.mode = "ready", !.art = Append(@, [emb |-> ln.fail, off |-> ln.pad, uri |-> ln.id, at |-> w7.wr])], "pic", IF x.ok THEN Append(x.ls, OkL) ELSE x.ls, 0)
@@ -336,6 +361,11 @@ WResolve(w, c, n, res) ==
       isErr == res.t \in {"closed", "proto"}
       w2 == IF res.t = "proto" THEN [w1 EXCEPT !.surfaced = TRUE] ELSE w1 IN
   IF r.kind = "art" THEN WArtResolve(w2, ri, res)
+  ELSE IF r.kind \in {"tlist", "tvec"} /\ ~isErr THEN
+     \* C13: the i-th typed response is decoded from the frame the server produced for the i-th command
+     LET w3 == Chk(w2, pi > 0 /\ w.reps[pi].end <= w.rd, "C01", "typed list resolved before its reply was completely read") IN
+     Chk(Chk(w3, res.t = "tl", "C13", "a typed list whose every reply is well-formed did not resolve to its typed values"),
+         res.t # "tl" \/ res.items = [k \in 1..Len(r.cmds) |-> TypedItem(r.cmds[k])], "C13", "the i-th typed response is not decoded from the frame of the i-th command")
   ELSE IF isErr THEN
      LET w3 == Chk(w2, ~got, "C08", "request resolved with an error although its reply had been completely received")
      IN Chk(w3, w.fault # "" \/ w.handles = 0 \/ ~r.wasAlive, "C01", "request resolved with an error on a healthy connection")
